@@ -95,3 +95,14 @@ class PureCopyFilter:
         from pyhms.sprout.sprout_candidates import DemeCandidates
 
         return {deme: DemeCandidates(individuals=list(c.individuals), features=c.features) for deme, c in candidates.items()}
+
+
+class BestParentsFirstFilter:
+    """A user-written deme-level filter that drops nothing but hands the candidates on in another order: parents sorted by the quality of
+    their best candidate (best first), whatever level they are on.  Legal: nothing in the filters' contract fixes the order of the dict."""
+
+    def __call__(self, candidates, tree):
+        with_c = [(d, c) for d, c in candidates.items() if c.individuals]
+        without = [(d, c) for d, c in candidates.items() if not c.individuals]
+        with_c.sort(key=lambda it: max(it[1].individuals), reverse=True)
+        return dict(with_c + without)
